@@ -42,6 +42,12 @@
 
 namespace OpenVolumeMesh {
 
+#ifdef OVM_VERIF_TRACE
+namespace verif {
+HookFn hook = nullptr;
+int depth = 0;
+}
+#endif
 
 // Initialize constants
 const VertexHandle      TopologyKernel::InvalidVertexHandle   = VertexHandle(-1);
@@ -82,6 +88,7 @@ void TopologyKernel::reserve_cells(size_t n)
 
 void TopologyKernel::add_n_vertices(size_t n)
 {
+    OVM_VERIF_SCOPE("add_n_vertices", (long long)n);
     resize_vprops(n_vertices_ + n);
     n_vertices_ += n;
     vertex_deleted_.resize(n_vertices_, false);
@@ -91,6 +98,7 @@ void TopologyKernel::add_n_vertices(size_t n)
 }
 
 VertexHandle TopologyKernel::add_vertex() {
+    OVM_VERIF_SCOPE("add_vertex");
 
     ++n_vertices_;
     vertex_deleted_.push_back(false);
@@ -113,6 +121,7 @@ VertexHandle TopologyKernel::add_vertex() {
 EdgeHandle TopologyKernel::add_edge(VertexHandle _fromVertex,
                                     VertexHandle _toVertex,
                                     bool _allowDuplicates) {
+    OVM_VERIF_SCOPE("add_edge", _fromVertex.idx(), _toVertex.idx(), _allowDuplicates);
 
     // If the conditions are not fulfilled, assert will fail (instead
 	// of returning an invalid handle)
@@ -173,6 +182,7 @@ EdgeHandle TopologyKernel::add_edge(VertexHandle _fromVertex,
 
 /// Add face via incident edges
 FaceHandle TopologyKernel::add_face(std::vector<HalfEdgeHandle> _halfedges, bool _topologyCheck) {
+    OVM_VERIF_SCOPE("add_face", 0, 0, _topologyCheck, verif::idxs(_halfedges));
 
 #ifndef NDEBUG
     // Assert that halfedges are valid
@@ -238,6 +248,7 @@ FaceHandle TopologyKernel::add_face(std::vector<HalfEdgeHandle> _halfedges, bool
 /// Add face via incident vertices
 /// Define the _vertices in counter-clockwise order (from the "outside")
 FaceHandle TopologyKernel::add_face(const std::vector<VertexHandle>& _vertices) {
+    OVM_VERIF_SCOPE("add_face_v", 0, 0, false, verif::idxs(_vertices));
 
 #ifndef NDEBUG
     // Assert that all vertices have valid indices
@@ -386,6 +397,7 @@ void TopologyKernel::reorder_incident_halffaces(EdgeHandle _eh) {
 
 /// Add cell via incident halffaces
 CellHandle TopologyKernel::add_cell(std::vector<HalfFaceHandle> _halffaces, bool _topologyCheck) {
+    OVM_VERIF_SCOPE("add_cell", 0, 0, _topologyCheck, verif::idxs(_halffaces));
 
 #ifndef NDEBUG
     // Assert that halffaces have valid indices
@@ -508,6 +520,7 @@ CellHandle TopologyKernel::add_cell(std::vector<HalfFaceHandle> _halffaces, bool
 /// Set the vertices of an edge
 // cppcheck-suppress unusedFunction ; public interface
 void TopologyKernel::set_edge(EdgeHandle _eh, VertexHandle _fromVertex, VertexHandle _toVertex) {
+    OVM_VERIF_SCOPE("set_edge", _eh.idx(), 0, false, std::vector<int>{_fromVertex.idx(), _toVertex.idx()});
 
     assert(_fromVertex.is_valid() && (size_t)_fromVertex.idx() < n_vertices() && !is_deleted(_fromVertex));
     assert(_toVertex.is_valid() && (size_t)_toVertex.idx() < n_vertices() && !is_deleted(_toVertex));
@@ -543,6 +556,7 @@ void TopologyKernel::set_edge(EdgeHandle _eh, VertexHandle _fromVertex, VertexHa
 /// Set the half-edges of a face
 // cppcheck-suppress unusedFunction ; public interface
 void TopologyKernel::set_face(FaceHandle _fh, const std::vector<HalfEdgeHandle>& _hes) {
+    OVM_VERIF_SCOPE("set_face", _fh.idx(), 0, false, verif::idxs(_hes));
 
     Face& f = face(_fh);
 
@@ -584,6 +598,7 @@ void TopologyKernel::set_face(FaceHandle _fh, const std::vector<HalfEdgeHandle>&
 /// Set the half-faces of a cell
 // cppcheck-suppress unusedFunction ; public interface
 void TopologyKernel::set_cell(CellHandle _ch, const std::vector<HalfFaceHandle>& _hfs) {
+    OVM_VERIF_SCOPE("set_cell", _ch.idx(), 0, false, verif::idxs(_hfs));
 
     Cell& c = cell(_ch);
 
@@ -621,6 +636,7 @@ void TopologyKernel::set_cell(CellHandle _ch, const std::vector<HalfFaceHandle>&
  * @param _h The handle to the vertex to be deleted
  */
 VertexIter TopologyKernel::delete_vertex(VertexHandle _h) {
+    OVM_VERIF_SCOPE("delete_vertex", _h.idx());
 
     assert(!is_deleted(_h));
 
@@ -673,6 +689,7 @@ VertexIter TopologyKernel::delete_vertex(VertexHandle _h) {
  * @param _h The handle to the edge to be deleted
  */
 EdgeIter TopologyKernel::delete_edge(EdgeHandle _h) {
+    OVM_VERIF_SCOPE("delete_edge", _h.idx());
 
     assert(!is_deleted(_h));
 
@@ -716,6 +733,7 @@ EdgeIter TopologyKernel::delete_edge(EdgeHandle _h) {
  * @param _h The handle to the face to be deleted
  */
 FaceIter TopologyKernel::delete_face(FaceHandle _h) {
+    OVM_VERIF_SCOPE("delete_face", _h.idx());
 
     assert(!is_deleted(_h));
 
@@ -747,6 +765,7 @@ FaceIter TopologyKernel::delete_face(FaceHandle _h) {
  * @param _h The handle to the cell to be deleted
  */
 CellIter TopologyKernel::delete_cell(CellHandle _h) {
+    OVM_VERIF_SCOPE("delete_cell", _h.idx());
 
     assert(!is_deleted(_h));
     return delete_cell_core(_h);
@@ -757,6 +776,7 @@ CellIter TopologyKernel::delete_cell(CellHandle _h) {
  */
 void TopologyKernel::collect_garbage()
 {
+    OVM_VERIF_SCOPE("collect_garbage");
     if (!deferred_deletion_enabled() || !needs_garbage_collection())
         return; // nothing todo
 
@@ -1445,6 +1465,7 @@ CellIter TopologyKernel::delete_cell_core(CellHandle _h) {
 
 void TopologyKernel::swap_cell_indices(CellHandle _h1, CellHandle _h2)
 {
+    OVM_VERIF_SCOPE("swap_cells", _h1.idx(), _h2.idx());
     assert(_h1.idx() >= 0 && _h1.idx() < (int)cells_.size());
     assert(_h2.idx() >= 0 && _h2.idx() < (int)cells_.size());
 
@@ -1472,6 +1493,7 @@ void TopologyKernel::swap_cell_indices(CellHandle _h1, CellHandle _h2)
 
 void TopologyKernel::swap_face_indices(FaceHandle _h1, FaceHandle _h2)
 {
+    OVM_VERIF_SCOPE("swap_faces", _h1.idx(), _h2.idx());
     assert(_h1.idx() >= 0 && _h1.idx() < (int)faces_.size());
     assert(_h2.idx() >= 0 && _h2.idx() < (int)faces_.size());
 
@@ -1614,6 +1636,7 @@ void TopologyKernel::swap_face_indices(FaceHandle _h1, FaceHandle _h2)
 
 void TopologyKernel::swap_edge_indices(EdgeHandle _h1, EdgeHandle _h2)
 {
+    OVM_VERIF_SCOPE("swap_edges", _h1.idx(), _h2.idx());
     assert(_h1.idx() >= 0 && _h1.idx() < (int)edges_.size());
     assert(_h2.idx() >= 0 && _h2.idx() < (int)edges_.size());
 
@@ -1753,6 +1776,7 @@ void TopologyKernel::swap_edge_indices(EdgeHandle _h1, EdgeHandle _h2)
 
 void TopologyKernel::swap_vertex_indices(VertexHandle _h1, VertexHandle _h2)
 {
+    OVM_VERIF_SCOPE("swap_vertices", _h1.idx(), _h2.idx());
     assert(is_valid(_h1));
     assert(is_valid(_h2));
 
@@ -1818,6 +1842,7 @@ void TopologyKernel::swap_vertex_indices(VertexHandle _h1, VertexHandle _h2)
 
 void TopologyKernel::enable_deferred_deletion(bool _enable)
 {
+    OVM_VERIF_SCOPE("enable_deferred", 0, 0, _enable);
     if (deferred_deletion_ && !_enable)
         collect_garbage();
 
